@@ -57,6 +57,60 @@ func (r *ppRunner) run(in []byte, args ...string) ppOut {
 	return o
 }
 
+// runFull runs pp with its standard output on /dev/full: every write to it fails.
+func (r *ppRunner) runFull(in []byte, args ...string) (ppOut, bool) {
+	f, err := os.OpenFile("/dev/full", os.O_WRONLY, 0)
+	if err != nil {
+		return ppOut{}, false
+	}
+	defer f.Close()
+	ctx, cancel := context.WithTimeout(context.Background(), 20*time.Second)
+	defer cancel()
+	cmd := exec.CommandContext(ctx, r.bin, append([]string{"-rebase=false"}, args...)...)
+	cmd.Env = r.env
+	cmd.Stdin = bytes.NewReader(in)
+	var se bytes.Buffer
+	cmd.Stdout, cmd.Stderr = f, &se
+	err = cmd.Run()
+	o := ppOut{stderr: se.Bytes(), timedOut: ctx.Err() != nil}
+	if err != nil {
+		o.code = -1
+		if ee, ok := err.(*exec.ExitError); ok {
+			o.code = ee.ExitCode()
+		}
+	}
+	return o, true
+}
+
+// checkPPLost: exit status 0 promises that the output is the input with each dump replaced by its
+// rendering.  When the place the output (or the -html page) goes to takes no bytes, nothing of that
+// was delivered, so pp must not exit 0 - wherever the dump stands, the end of the input included.
+func checkPPLost(res *Result, r *ppRunner, data []byte, calls []specCall, cs interface{}, tag string) {
+	if o, ok := r.runFull(data); ok && !o.timedOut {
+		res.count("pp_lost_output_runs", 1)
+		if o.code == 0 {
+			res.violation(Finding{Property: "C02", Aspect: "pp-lost-output", What: tag + ": pp exits 0 although none of its output could be written (standard output on /dev/full)", Case: cs, Input: data, Observed: string(o.stderr)})
+		}
+	}
+	dumps := 0
+	for _, c := range calls {
+		if len(c.Snap) != 0 {
+			dumps++
+		}
+	}
+	if dumps == 0 {
+		return
+	}
+	o := r.run(data, "-html", "/dev/full")
+	if _, err := os.Stat("/dev/full"); err != nil || o.timedOut {
+		return
+	}
+	res.count("pp_lost_page_runs", 1)
+	if o.code == 0 {
+		res.violation(Finding{Property: "C02", Aspect: "pp-lost-page", What: tag + ": pp -html exits 0 although the page replacing the dump could not be written (/dev/full)", Case: cs, Input: data, Observed: string(o.stderr)})
+	}
+}
+
 func (r *ppRunner) render(dump []byte) ppOut {
 	k := string(dump)
 	r.mu.Lock()
@@ -156,6 +210,9 @@ func checkPP(res *Result, r *ppRunner, lines [][]byte, calls []specCall, pp *ppS
 			want0 = want
 		}
 		if bytes.Equal(want, o.stdout) {
+			if pp.Status == 0 && len(o.stdout) != 0 && (len(data)+len(lines))%3 == 0 {
+				checkPPLost(res, r, data, calls, cs, tag)
+			}
 			if v[0] {
 				for _, c := range calls {
 					if len(c.K1) != 0 {
